@@ -37,7 +37,10 @@ ASSUMPTIONS = [
     "trees for every max_distance (the cluster adds the connecting path)",
     "loop expansions are only compared on: trees with `where` a site or an edge; unicyclic graphs with `where` on the "
     "cycle and sloops/gloops >= cycle length; multi-loop cores with tails, `where` inside the core, gloops >= number of "
-    "sites (DESIGN S, probe e43)",
+    "sites (DESIGN S, probe e43); normalized='global' only on trees and on 2-connected graphs without tails (one global "
+    "factor + unnormalised clusters is exact only for tree-like or all-containing clusters; pinned by probe: 1e-12 there, "
+    "1e-4..1e-3 on loop + tails)",
+    "reduce=True (documented experimental) only for pairs on states with >= 3 sites",
     "2D compute_local_expectation takes coordinate pairs in lattice order only (KeyError otherwise = rejection)",
     "a lone site is passed as a 1-tuple everywhere except in the sub-check lone_site, which exercises the documented "
     "'node or sequence[node]' spellings",
@@ -268,12 +271,12 @@ def s_tree_edges(draw, n):
 
 
 @st.composite
-def s_graph(draw, shape="any", nmax=9, bonds=(2, 2, 3), names=False):
+def s_graph(draw, shape="any", nmax=9, bonds=(2, 2, 3), names=False, nmin=2):
     """shape: tree | unicyclic | core (cycle + chords, tails) | biconn (cycle + chords, no tails) | any"""
     if shape == "any":
         shape = draw(st.sampled_from(["tree", "unicyclic", "core", "biconn"]))
     if shape == "tree":
-        n = draw(st.integers(2, nmax))
+        n = draw(st.integers(nmin, nmax))
         edges = draw(s_tree_edges(n))
         core = []
     else:
@@ -493,7 +496,8 @@ def run_compressed(case):
         route = "local_expectation"  # PEPS overrides the many-term form with the plaquette method (sub-check peps2d)
     w0 = case["wheres"][0]
     # `reduce` pulls exactly two physical indices onto a bond (experimental, documented for pairs)
-    reduce = bool(case["reduce"]) and all(len(w) == 2 for w in case["wheres"])
+    # (and needs something left to contract: on a two-site state with both sites kept the reduced network is empty)
+    reduce = bool(case["reduce"]) and all(len(w) == 2 for w in case["wheres"]) and s.n >= 3
     kw = dict(max_bond=case["max_bond"], optimize=case["optimize"], flatten=case["flatten"], reduce=reduce,
               normalized=normalized, symmetrized=case["symmetrized"], method=case["method"], cutoff=0.0)
     info = dict(route=route, nmz=str(normalized), fam=s.desc["fam"], method=case["method"], flatten=str(case["flatten"]),
@@ -689,17 +693,27 @@ def s_loop_where(draw, desc):
 
 @st.composite
 def s_loops(draw, tier):
-    desc = draw(s_graph(shape=draw(st.sampled_from(["tree", "unicyclic", "unicyclic", "core", "core", "biconn"]))))
+    big_global = draw(st.integers(0, 11)) == 0  # the single-global-factor class on > 8 sites (C13-h), constructed on purpose
+    if big_global:
+        desc = draw(s_graph(shape="tree", nmin=9, nmax=9))
+    else:
+        desc = draw(s_graph(shape=draw(st.sampled_from(["tree", "unicyclic", "unicyclic", "core", "core", "biconn"]))))
     shape = desc["shape"]
     kinds = ["sloop", "sloop", "gloop"] if shape in ("tree", "unicyclic") else ["gloop"]
-    kind = draw(st.sampled_from(kinds))
-    route = draw(st.sampled_from(["local", "local", "compute", "norm"] if kind == "gloop" else ["local", "local", "compute"]))
+    kind = "gloop" if big_global else draw(st.sampled_from(kinds))
+    route = "compute" if big_global else draw(
+        st.sampled_from(["local", "local", "compute", "norm"] if kind == "gloop" else ["local", "local", "compute"]))
     nterms = draw(st.integers(1, 3)) if route == "compute" else 1
     sizes = ["c", "n", "n+2"] + (["none"] if shape in ("tree", "unicyclic") else [])
-    norms = [True, True, "local", "separate", "prod"] + (["global"] if (route == "compute" and kind == "gloop") else [])
+    # normalized='global' divides every tensor by one estimated norm and then takes *unnormalised* cluster values: that is
+    # exact only if every cluster is tree like (trees, where at the gauge fixed point all local norms are equal) or holds
+    # every tensor (2-connected graphs without tails); with a loop *and* tails it is an approximation by design (3e-4..1e-3)
+    norms = [True, True, "local", "separate", "prod"] + (
+        ["global"] if (route == "compute" and kind == "gloop" and shape in ("tree", "biconn")) else [])
+    normalized = "global" if big_global else draw(st.sampled_from(norms))
     return {"state": desc, "kind": kind, "route": route, "wheres": [draw(s_loop_where(desc)) for _ in range(nterms)],
             "gseed": draw(A.seeds), "size": draw(st.sampled_from(sizes)), "combine": draw(st.sampled_from(["prod", "prod", "sum"])),
-            "normalized": draw(st.sampled_from(norms)), "autocomplete": draw(st.booleans()), "autoreduce": draw(st.booleans()),
+            "normalized": normalized, "autocomplete": draw(st.booleans()), "autoreduce": draw(st.booleans()),
             "grow_from": draw(st.sampled_from(["all", "all", "any"])), "strict_size": draw(st.integers(0, 3)) == 0,
             "strip": draw(st.booleans()), "return_all": draw(st.booleans()), "share_info": draw(st.booleans())}
 
@@ -714,8 +728,11 @@ def run_loops(case):
     combine, normalized = case["combine"], case["normalized"]
     if normalized == "separate" and combine != "sum":
         combine = "sum"  # 'separate' is only defined for combine='sum'
+    if normalized == "global" and desc["shape"] not in ("tree", "biconn"):
+        normalized = True  # not an exact class for the single global factor (see s_loops)
     w0 = case["wheres"][0]
-    info = dict(route=kind + ":" + route, shape=desc["shape"], combine=combine, nmz=str(normalized), size=case["size"])
+    info = dict(route=kind + ":" + route, shape=desc["shape"], combine=combine, nmz=str(normalized), size=case["size"],
+                gt8=n > 8)
     cls = base_cls(s, w0) + ["route=" + kind + ":" + route, "shape=" + desc["shape"], "size=" + case["size"], "combine=" + combine,
                              f"normalized={normalized}", f"autocomplete={case['autocomplete']}", f"autoreduce={case['autoreduce']}",
                              "grow_from=" + case["grow_from"]]
